@@ -22,7 +22,7 @@ RULE = ('Hypothesis draws mode sizes (order 2..5, N <= 64 quick / 128 thorough),
         '(N <= 16); for tdvp1site at every rank | ||x_k|| - 1 | and | <x_k|H|x_k> - <x_0|H|x_0> | <= 1e-9; the trajectory is '
         '[initial state by identity] + one state per step; operator and initial state bit-identical; rank caps respected. '
         'Non-trivial: complex H, order >= 3, non-maximal ranks, or >= 2 steps.')
-RULE += (' ' + 'Added classes: max_rank=inf written out, maximal formal ranks with exactly vanishing Schmidt values (zero-padded right-orthonormal cores), Krylov dimensions N+1 / N+3, unit rescaling, start states in any gauge; operator and initial state are compared bit by bit.')
+RULE += (' ' + 'Added classes: max_rank=inf written out, maximal formal ranks with exactly vanishing Schmidt values (zero-padded right-orthonormal cores), Krylov dimensions N+1 / N+3, unit rescaling, start states in any gauge; operator and initial state are compared bit by bit; TDVP initial states of norm 1e-12, 3e-10 and 1e9 (the equation is linear), every tolerance relative to that norm.')
 
 ASSUMPTIONS = [
     'oracle: scipy.linalg.expm on the dense Hamiltonian; TT operators from vt/dense.tt_svd',
